@@ -41,6 +41,11 @@ inductive Prim
   | obj (den : Den) (alts : Alts)                  -- ReadObject
   | sobj (lp : LP) (den : Den) (val : Bool) (min max mode : Nat) (must : List Nat) (alts : Alts) -- ReadSliceOfObjects
   | payload (alts : Alts)                          -- ReadPayload
+  | rem                                            -- RemainingBytes (observed, nothing consumed)
+  | gtype (den : Den)                              -- GetObjectType as a call of its own (+ abort on its error)
+  | doF                                            -- Do(f): f runs iff the chain has not failed
+  | abort (flag : Bool)                            -- AbortIf(errProducer); the producer reports an error iff `flag`
+  | wval (val flag : Bool)                         -- WithValidation(mode, errProducer)
 inductive Prog
   | nil
   | cons (p : Prim) (rest : Prog)
@@ -57,6 +62,8 @@ structure DOut where
 deriving Repr, DecidableEq
 
 def dfail (c : Cost) : DOut := ⟨.err, 0, [], c⟩
+/-- a failure after the offset was already advanced by `n` (what `Done()` reports next to the error) -/
+def derr (n : Nat) (c : Cost) : DOut := ⟨.err, n, [], c⟩
 def dpanic : DOut := ⟨.panic, 0, [], {}⟩
 def dok (n : Nat) (vs : List Val) (c : Cost) : DOut := ⟨.ok, n, vs, c⟩
 
@@ -140,7 +147,7 @@ def seqLoop (item : Bytes → DOut) (tyOf : Bytes → Nat) (tick : Nat) (val : B
     | .ok =>
       let v := if val then validate mode vs (rest.take o.n) else (some vs, 0)
       match v.1 with
-      | none => (⟨.err, 0, [], o.cost + ⟨v.2, tick⟩⟩, [])
+      | none => (⟨.err, o.n, [], o.cost + ⟨v.2, tick⟩⟩, [])
       | some vs' =>
         let r := seqLoop item tyOf tick val mode k (rest.drop o.n) vs'
         (⟨r.1.res, o.n + r.1.n, o.vals ++ r.1.vals, o.cost + ⟨v.2, tick⟩ + r.1.cost⟩, tyOf rest :: r.2)
@@ -153,7 +160,9 @@ def objItem (runAlt : Nat → Bytes → Option DOut) (den : Den) (tick : Nat) (b
   | some ty =>
     match runAlt ty b with
     | none => dfail ⟨0, tick⟩
-    | some o => ⟨o.res, o.n, o.vals, o.cost + ⟨0, tick⟩⟩
+    | some o =>
+      -- the offset of a failed object parser is discarded by `readObject` (d.offset stays where it was)
+      ⟨o.res, if o.res = .ok then o.n else 0, o.vals, o.cost + ⟨0, tick⟩⟩
 
 /-- seconds that fit a nanosecond int64 timestamp -/
 def maxNanoSeconds : Nat := 9223372036
@@ -182,9 +191,9 @@ def runPrim : Prim → Bytes → DOut
     | (.panic, _, _) => dpanic
     | (.err, _, _) => dfail {}
     | (.ok, len, w) =>
-      if 0 < max ∧ max < len then dfail {}
-      else if 0 < min ∧ len < min then dfail {}
-      else if (b.drop w).length < len then dfail {}
+      if 0 < max ∧ max < len then derr w {}
+      else if 0 < min ∧ len < min then derr w {}
+      else if (b.drop w).length < len then derr w {}
       else dok (w + len) [.bytes ((b.drop w).take len)] ⟨len, 0⟩
   | .str lp min max, b =>
     match readSliceLength lp b with
@@ -192,8 +201,8 @@ def runPrim : Prim → Bytes → DOut
     | (.err, _, _) => dfail {}
     | (.ok, len, w) =>
       -- the length violation is recorded but the read goes on; the result is an error either way
-      if (b.drop w).length < len then dfail {}
-      else if (0 < max ∧ max < len) ∨ (0 < min ∧ len < min) then dfail ⟨len, 0⟩
+      if (b.drop w).length < len then derr w {}
+      else if (0 < max ∧ max < len) ∨ (0 < min ∧ len < min) then derr (w + len) ⟨len, 0⟩
       else dok (w + len) [.bytes ((b.drop w).take len)] ⟨len, 0⟩
   | .skip n, b => if b.length < n then dfail {} else dok n [] {}
   | .tprefix den code, b =>
@@ -211,7 +220,7 @@ def runPrim : Prim → Bytes → DOut
     | (.panic, _, _) => dpanic
     | (.err, _, _) => dfail {}
     | (.ok, cnt, w) =>
-      if val && boundsViolated min max cnt then dfail {}
+      if val && boundsViolated min max cnt then derr w {}
       else
         let r := (seqLoop (runProg item) (fun _ => 0) 1 val mode cnt (b.drop w) {}).1
         ⟨r.res, w + r.n, r.vals, r.cost⟩
@@ -221,29 +230,37 @@ def runPrim : Prim → Bytes → DOut
     | (.panic, _, _) => dpanic
     | (.err, _, _) => dfail {}
     | (.ok, cnt, w) =>
-      if val && boundsViolated min max cnt then dfail {}
+      if val && boundsViolated min max cnt then derr w {}
       else
         let r := seqLoop (objItem (runAlts alts) den 1) (fun e => (getType den e).getD 0) 0 val mode cnt (b.drop w) {}
         match r.1.res with
         | .ok =>
-          if val && !(must.all fun m => r.2.contains m) then dfail r.1.cost
+          if val && !(must.all fun m => r.2.contains m) then derr (w + r.1.n) r.1.cost
           else ⟨.ok, w + r.1.n, r.1.vals ++ (if cnt = 0 then [] else [.size cnt]), r.1.cost⟩
-        | _ => ⟨r.1.res, 0, [], r.1.cost⟩
+        | _ => ⟨r.1.res, w + r.1.n, [], r.1.cost⟩
   | .payload alts, b =>
     if b.length < 4 then dfail {}
     else
       let len := leNat (b.take 4)
       let b' := b.drop 4
       if len = 0 then dok 4 [] {}
-      else if b'.length < 5 then dfail {}
-      else if b'.length < len then dfail {}
+      else if b'.length < 5 then derr 4 {}
+      else if b'.length < len then derr 4 {}
       else
         match runAlts alts (leNat (b'.take 4)) b' with
-        | none => dfail {}
+        | none => derr 4 {}
         | some o =>
           match o.res with
-          | .ok => if o.n = len then ⟨.ok, 4 + o.n, o.vals, o.cost⟩ else dfail o.cost
-          | _ => ⟨o.res, 0, [], o.cost⟩
+          | .ok => if o.n = len then ⟨.ok, 4 + o.n, o.vals, o.cost⟩ else derr 4 o.cost
+          | _ => ⟨o.res, 4, [], o.cost⟩
+  | .rem, b => dok 0 [.bytes b] {}
+  | .gtype den, b =>
+    match getType den b with
+    | none => dfail {}
+    | some ty => dok 0 [.size ty] {}
+  | .doF, _ => dok 0 [.size 0] {}
+  | .abort flag, _ => if flag then dfail {} else dok 0 [] {}
+  | .wval val flag, _ => if val then (if flag then dfail {} else dok 0 [.size 1] {}) else dok 0 [] {}
 def runProg : Prog → Bytes → DOut
   | .nil, _ => ⟨.ok, 0, [], {}⟩
   | .cons p rest, b =>
@@ -252,7 +269,7 @@ def runProg : Prog → Bytes → DOut
     | .ok =>
       let o2 := runProg rest (b.drop o.n)
       ⟨o2.res, o.n + o2.n, o.vals ++ o2.vals, o.cost + o2.cost⟩
-    | _ => ⟨o.res, 0, [], o.cost⟩
+    | _ => ⟨o.res, o.n, [], o.cost⟩
 /-- the read guard: the alternative registered for a type code deserializes itself -/
 def runAlts : Alts → Nat → Bytes → Option DOut
   | .nil, _, _ => none
@@ -308,6 +325,11 @@ def parseD : Nat → List String → Option (Prog × List String)
   | f + 1, "t" :: ts => do let (r, ts') ← parseD f ts; pure (.cons .time r, ts')
   | f + 1, "l" :: ts => do let (r, ts') ← parseD f ts; pure (.cons .plen r, ts')
   | f + 1, "a" :: ts => do let (r, ts') ← parseD f ts; pure (.cons .all r, ts')
+  | f + 1, "R" :: ts => do let (r, ts') ← parseD f ts; pure (.cons .rem r, ts')
+  | f + 1, "D" :: ts => do let (r, ts') ← parseD f ts; pure (.cons .doF r, ts')
+  | f + 1, "g" :: d :: ts => do let (r, ts') ← parseD f ts; pure (.cons (.gtype (← parseDen d)) r, ts')
+  | f + 1, "A" :: fl :: ts => do let (r, ts') ← parseD f ts; pure (.cons (.abort (fl == "1")) r, ts')
+  | f + 1, "W" :: v :: fl :: ts => do let (r, ts') ← parseD f ts; pure (.cons (.wval (v == "1") (fl == "1")) r, ts')
   | f + 1, "f" :: n :: ts => do let (r, ts') ← parseD f ts; pure (.cons (.fixed (← n.toNat?)) r, ts')
   | f + 1, "i" :: n :: ts => do let (r, ts') ← parseD f ts; pure (.cons (.inplace (← n.toNat?)) r, ts')
   | f + 1, "k" :: n :: ts => do let (r, ts') ← parseD f ts; pure (.cons (.skip (← n.toNat?)) r, ts')
@@ -351,7 +373,7 @@ end
 def showOut (o : DOut) : String :=
   match o.res with
   | .ok => s!"ok {o.n} {o.cost.iters} {showVals o.vals}"
-  | .err => s!"err {o.cost.iters}"
+  | .err => s!"err {o.n} {o.cost.iters}"
   | .panic => "panic"
 
 /-- `d HEX prog…`, `m KW VW HEX`, `tu u64|a32 HEX` -/
